@@ -301,6 +301,7 @@ fn check_c18(tier: Tier) {
                 vec![vh::c18::SOp::DropNewest, vh::c18::SOp::NewA],
                 vec![vh::c18::SOp::NewA, vh::c18::SOp::NewA],
             ],
+            alloc: 2,
         };
         let sched = vec![0, 1, 0, 1, 1];
         let (e1, o1) = vh::c18::run_config_once(&cfg, &sched);
@@ -317,20 +318,26 @@ fn check_c18(tier: Tier) {
     // Scheduling points: every acquisition of the intern-table lock (a thread that finds it taken
     // parks as "blocked"), every reference-count operation on a buffer (upgrade, downgrade,
     // into_inner, strong_count) and every operation boundary of the thread programs.
-    let mut groups: Vec<(usize, usize, Option<usize>)> = Vec::new();
+    // min_long/long > 0 make the group asymmetric: two threads, thread 0 with at most `len`
+    // operations and thread 1 with min_long..=long operations, each configuration under both
+    // block-recycling policies of the allocator (newest-first, oldest-first; see alloctrack).
+    let mut groups: Vec<(usize, usize, Option<usize>, usize, usize)> = Vec::new();
     if tier == Tier::Thorough {
-        groups.push((2, 2, None));
-        groups.push((3, 1, None));
-        groups.push((2, 3, Some(3)));
-        groups.push((3, 2, Some(2)));
+        groups.push((2, 2, None, 0, 0));
+        groups.push((3, 1, None, 0, 0));
+        groups.push((2, 3, Some(3), 0, 0));
+        groups.push((3, 2, Some(2), 0, 0));
+        groups.push((2, 2, Some(1), 3, 5));
+        groups.push((2, 1, Some(2), 4, 5));
     } else {
-        groups.push((2, 2, Some(3)));
-        groups.push((3, 1, Some(2)));
+        groups.push((2, 2, Some(3), 0, 0));
+        groups.push((3, 1, Some(2), 0, 0));
+        groups.push((2, 2, Some(1), 3, 3));
     }
     let mut total = vh::c18::Out18::default();
     let mut group_json = Vec::new();
-    for (threads, len, bound) in groups {
-        let cfgs = vh::c18::all_configs(threads, len);
+    for (threads, len, bound, min_long, long) in groups {
+        let cfgs = if long == 0 { vh::c18::all_configs(threads, len) } else { vh::c18::asym_configs(len, min_long, long) };
         let procs = vh::forkpool::default_procs();
         let cfgs_ref = &cfgs;
         let outs = vh::forkpool::fork_map(procs, |w| {
@@ -348,15 +355,16 @@ fn check_c18(tier: Tier) {
             vh::c18::merge_out(&run, &mut total, o);
         }
         println!(
-            "C18 group threads={} max_len={} bound={:?}: configs={} schedules={}",
+            "C18 group threads={} max_len={} long={} bound={:?}: configs={} schedules={}",
             threads,
             len,
+            long,
             bound,
             total.configs - before.0,
             total.executions - before.1
         );
         group_json.push(json!({
-            "threads": threads, "max_program_length": len, "preemption_bound": bound,
+            "threads": threads, "max_program_length": len, "long_thread_program_length": [min_long, long], "preemption_bound": bound,
             "configs": total.configs - before.0, "schedules": total.executions - before.1,
         }));
     }
@@ -376,13 +384,14 @@ fn check_c18(tier: Tier) {
         "cap_hit": total.cap_hit,
         "exhaustive": !total.cap_hit,
         "distinct_observations": total.distinct_observations,
-        "rule": "stateless DFS over all schedules of real threads running SharedString new/clone/drop programs under a baton scheduler; yield points: operation boundaries and every acquisition of the intern-table lock (incl. the window between Arc::into_inner and the clean-up); 'states' counts complete schedules, 'transitions' is an upper bound (schedules x max steps)",
+        "rule": "stateless DFS over all schedules of real threads running SharedString new/clone/drop programs under a baton scheduler; yield points: operation boundaries and every acquisition of the intern-table lock (incl. the window between Arc::into_inner and the clean-up) and every reference-count operation; asymmetric groups additionally fix which free block the allocator returns for a buffer header (newest-first / oldest-first recycling), so that address reuse is a choice the explorer makes, not malloc's; 'states' counts complete schedules, 'transitions' is an upper bound (schedules x max steps)",
     });
     run.finish(
         cov,
         &[
             "interleavings at the granularity of intern-table critical sections and operation boundaries; std::sync::Arc/Mutex internals trusted (no weak-memory modelling)",
             "content alphabet of two byte strings, forced to collide",
+            "allocator address reuse is explored for two deterministic recycling policies of the 40-byte buffer-header class; every block handed out is a free one, so each behaviour is one the system allocator may show",
         ],
     );
 }
